@@ -81,6 +81,15 @@ func newFakeEndpoint(script []int) *fakeEndpoint {
 			ep.okBody = append(ep.okBody, string(body))
 		}
 		ep.mu.Unlock()
+		if st == -2 { // answer the status line and the headers, then stall inside the body
+			w.Header().Set("Content-Length", "100")
+			w.WriteHeader(200)
+			if f, ok := w.(http.Flusher); ok {
+				f.Flush()
+			}
+			<-r.Context().Done()
+			return
+		}
 		if st == -1 { // hang: keep the request open until the sender gives up (5 s of real time)
 			<-r.Context().Done()
 			return
@@ -546,6 +555,7 @@ func checkC10Fault(job *Job, res *Result) {
 	c10Outage(job, res, &caseNo)
 	c10ExpirySweep(job, res, &caseNo)
 	c10FollowerSubscribers(job, res, &caseNo)
+	c10EndpointLists(job, res, &caseNo)
 }
 
 // c10Outage: the hook queue lives in a file (queue.db, the default); while the
@@ -997,3 +1007,84 @@ func c10FollowerSubscribers(job *Job, res *Result, caseNo *int) {
 }
 
 var reHookName = regexp.MustCompile(`"hook":"([^"]*)"`)
+
+// c10EndpointLists: a hook with several endpoints is a failover list - every
+// notification goes once, to the first endpoint that accepts it; and an endpoint
+// that answers its headers and then stalls delays the queue, it does not end it.
+func c10EndpointLists(job *Job, res *Result, caseNo *int) {
+	for _, sc := range []string{"two-healthy", "first-down", "first-stalls-in-body"} {
+		*caseNo++
+		if *caseNo%job.NShards != job.Shard {
+			continue
+		}
+		sc := sc
+		viol := func(sig, detail string) {
+			res.Violate("C10/endpoint-list-"+sig, fmt.Sprintf("%s  [scenario %s]", detail, sc), map[string]any{"endpoint_list": sc})
+		}
+		var script []int
+		if sc == "first-stalls-in-body" {
+			script = []int{-2}
+		}
+		ep1, ep2 := newFakeEndpoint(script), newFakeEndpoint(nil)
+		done := func() {}
+		if sc == "first-stalls-in-body" {
+			// a sender that waits for the rest of the body for ever never comes back to the scheduler:
+			// announce the finding, the watchdog turns a minute without progress into it
+			done = res.Pending("C10/endpoint-list-sender-blocked-for-ever", "the endpoint answered the headers of the first POST and then stalled inside the body: the hook's sender has not returned for a minute of real time (its 5 s limit covers the whole exchange); nothing queued behind it can be delivered", map[string]any{"endpoint_list": sc})
+		}
+		if sc == "first-down" {
+			ep1.SetDown(true)
+		}
+		x := runExec(job, freezeAllBut("manager"), func(x *Exec) {
+			in := x.Start("L", x.dir+"/L", 9001, nil)
+			c := x.Dial(in.Addr)
+			urls := ep1.URL() + "," + ep2.URL()
+			if sc == "first-stalls-in-body" {
+				urls = ep1.URL()
+			}
+			c.Do("SETHOOK", "hk", urls, "NEARBY", "k", "FENCE", "DETECT", "inside", "POINT", "1", "1", "100000")
+			var want []string
+			for i := 0; i < 3; i++ {
+				id := fmt.Sprintf("o%d", i)
+				c.Do("SET", "k", id, "POINT", "1", "1")
+				want = append(want, id+":inside")
+				vsched.Quiesce()
+			}
+			total := func() int { return len(ep1.OK()) + len(ep2.OK()) }
+			for i := 0; i < 30 && total() < len(want); i++ {
+				vsched.Sleep(int64(600 * stdtime.Millisecond))
+				vsched.Quiesce()
+			}
+			vsched.Sleep(int64(1200 * stdtime.Millisecond))
+			vsched.Quiesce()
+			keys := func(ms []string) (out []string) {
+				for _, m := range ms {
+					out = append(out, msgKey(m))
+				}
+				return
+			}
+			g1, g2 := keys(ep1.OK()), keys(ep2.OK())
+			res.Evaluations++
+			res.DistinctS(fmt.Sprint("eplist", sc, len(g1), len(g2)))
+			exp1, exp2 := want, []string(nil)
+			if sc == "first-down" {
+				exp1, exp2 = nil, want
+			}
+			if strings.Join(g1, ",") != strings.Join(exp1, ",") || strings.Join(g2, ",") != strings.Join(exp2, ",") {
+				sig := "wrong"
+				if len(g1)+len(g2) > len(want) {
+					sig = "duplicated"
+				} else if len(g1)+len(g2) < len(want) {
+					sig = "lost"
+				}
+				viol(sig, fmt.Sprintf("first endpoint accepted %v, second %v; expected %v and %v (each notification once, to the first endpoint that accepts it)", g1, g2, exp1, exp2))
+			}
+		})
+		done()
+		ep1.Close()
+		ep2.Close()
+		if x.Err != "" || len(x.Crashes) > 0 {
+			viol("hang-or-crash", fmt.Sprint(x.Err, x.Crashes))
+		}
+	}
+}
